@@ -199,4 +199,32 @@ TEXTS = {
   "note": "Not decided: exactly-once over arbitrary directory/import shapes (value-level), dependency order inside requests (inherits C01), what a plugin does.",
   "technique": "CFG must-precede / edge-dominance shape rules + SSA value identity for the two descriptor views + interprocedural SSA taint on plugin-chosen names",
  },
+ "C07": {
+  "text": "Decides structural necessary conditions of 'the printer drops nothing', not the behaviour of the whitespace/comment state machine: NODE-COVERAGE — writeNode's type switch has a non-empty "
+          "case for every concrete node type of protocompile/ast (enumerated from the type-checked dependency; reviewed exceptions for the root, the edition node and synthetic nodes) and its "
+          "default joins an error into f.err; HEADER-PARTITION — the kinds collected by writeFileHeader equal the kinds skipped by writeFileTypes, everything collected is written and an import is "
+          "skipped only as a comment-free duplicate of its predecessor; CHILD-COVERAGE — each of the 142 exported child/token fields of the node structs is handed to a write* function (a token "
+          "never written loses its text and comments); TERMINAL-COMMENTS — a possibly-terminal node reaches writeNode or a leaf writer only in a function that consults f.nodeInfo of that node; "
+          "OVERRIDE-KEY — a moved trailing comment is keyed by a node whose info some writer asks for (terminal, or a composite whose writers consult nodeInfo of the node itself); STABLE-SORT — "
+          "option nodes are never sorted with an unstable sort (equal names = one repeated option whose order is its value); ERR-SURFACE — f.err only accumulates, Run returns it, FormatFileNode "
+          "returns Run's result, FormatBucket returns every job's error; R-ERRUSE/R-DEFER on bufformat and the format command.",
+  "note": "Not decided (the heart of the property): descriptor equality before/after, where a comment lands, idempotence on concrete texts — they depend on the printer's state over concrete inputs and "
+          "need execution. Found with these rules: F16 (comments on empty declarations dropped; pinned by a golden file, known finding), F17 (unstable option sort, fixed), F18 (separator comment of "
+          "signed/compound values lost, fixed).",
+  "technique": "type-switch exhaustiveness over a dependency's node types + struct-field coverage with use classification + type-resolved call rules on the AST + CFG dominance for the error path",
+ },
+ "C11": {
+  "text": "Decides structural necessary conditions of 'the serialized image carries everything and every encoding is read with the codec that wrote it': FDP-FIELDS — each proto field of "
+          "descriptorpb.FileDescriptorProto (enumerated from the generated struct, so an upgrade that adds a field is caught) is copied from its namesake in the ImageFile builder literal, in "
+          "FileDescriptorProtoForFileDescriptor and is a method of the FileDescriptor interface, and unknown fields are carried (through stripBufExtensionField outwards); EXT-FIELDS — every field of "
+          "ImageFileExtension/ModuleInfo/ModuleName is written outwards and read back by NewImageForProto, each value under its own name (accessor→parameter→key, getter→variable→NewImageFile "
+          "parameter); EXT-NUMBER — bufExtensionFieldNumber equals the generated number of ImageFile.buf_extension, is what the stripper compares, and malformed bytes return the input unchanged; "
+          "ENCODING-PAIRED — all switches over MessageEncoding are total with an erroring default and each arm builds only its own codec (Binpb~Wire, JSON, Txtpb, YAML), parseMessageEncoding inverts "
+          "messageEncodingToFormat; BOOTSTRAP — each text arm of getImageForMessageRef unmarshals the same data twice, second with the resolver bootstrapped by the same codec, WithNoReparse only "
+          "there; COMPRESSION-PAIRED — reader/writer switches total, gzip arm↔gzip codec, zstd↔zstd, ChainCloser closes the codec before the stream; EXT-TABLE-AGREES — the four sibling raw-ref "
+          "processors map each extension to one (format, compression), .gz and .zst inner tables equal.",
+  "note": "Not decided: round-trip equality of images, equality of builds across packagings (dir/tar/zip/export), equality of image-level and module-level --path/--exclude-path filtering, lint/breaking "
+          "on image vs sources — all value-level, they need execution.",
+  "technique": "struct-field coverage against generated descriptor types + name-preserving flow check + enum-switch exhaustiveness with per-arm callee pairing + sibling-table agreement",
+ },
 }
